@@ -622,7 +622,9 @@ class StmtMixin(object):
       raise Unsupported('loop at line %d not found in %s' % (node.lineno, cx.qual))
     ls = spec.loops.get(ordn)
     if ls is None:
-      raise Unsupported('loop #%d of %s (line %d) has no invariant' % (ordn, cx.qual, node.lineno))
+      # a loop the sidecar has no invariant for (new code): cut with the invariant 'true', everything havocked
+      self.degraded.append('loop #%d of %s (line %d) has no invariant: abstracted as arbitrary effects' % (ordn, cx.qual, node.lineno))
+      ls = dict(invariant=[], modifies=['*'], allocates='any')
     return ordn, ls
 
   def ex_While(self, node, st, cx):
